@@ -9,8 +9,8 @@ import (
 	"os"
 	"time"
 
-	"verifharness/core"
 	_ "verifharness/adapters"
+	"verifharness/core"
 )
 
 func main() {
